@@ -184,7 +184,8 @@ def grow_all(crop_factory, B, order, via):
         crop_factory().grow([ids[-1]], verbosity=0)
 
 
-def make_crop_and_sow(f, d, case, combos, fn_args, cs, constants):
+def make_crop_and_sow(f, d, case, combos, fn_args, cs, constants,
+                      default_dir=False):
     import xyzpy as xyz
 
     constants = dict(constants) if constants else None
@@ -195,7 +196,11 @@ def make_crop_and_sow(f, d, case, combos, fn_args, cs, constants):
         kws[case["mode"]] = case["req"]
     if case["swhere"] == "ctor":
         kws["shuffle"] = case["sval"]
-    crop = xyz.Crop(fn=f, name=NAME, parent_dir=d, **kws)
+    if default_dir:
+        # (no parent_dir: the directory the user is in at this moment)
+        crop = xyz.Crop(fn=f, name=NAME, **kws)
+    else:
+        crop = xyz.Crop(fn=f, name=NAME, parent_dir=d, **kws)
     skw = {}
     if case["swhere"] == "sow" and kind in ("grid", "mix"):
         skw["shuffle"] = case["sval"]
@@ -280,7 +285,15 @@ def check_case(case):
                                             case["swhere"], sym)
 
     want = direct_run(f, kind, combos, fn_args, cs, constants)
-    crop = make_crop_and_sow(f, d, case, combos, fn_args, cs, constants)
+    # the crop is made without a parent_dir while the user is in d; the
+    # later steps happen after a change of directory
+    dd = core.pick([case, "defdir"], 5) == 0 and not case.get("pre")
+    if dd:
+        os.chdir(d)
+    crop = make_crop_and_sow(f, d, case, combos, fn_args, cs, constants,
+                             default_dir=dd)
+    if dd:
+        os.chdir(core.fresh_dir("c04elsewhere"))
     B = crop.num_batches
     rl = case["reload"]
 
